@@ -89,15 +89,22 @@ def _norm_rows(v):
 def replay(chk, h):
   import numpy as np
   from ml_metrics._src.chainables import transform, tree_fns
-  for arrays in (False, True):
+  # '2d': the aggregated column has two values per row, (b, b + 100) - only where b is not itself a slicing feature
+  modes = [False, True]
+  if not h['agg2'] and set(h['slicers']) <= {'a', 'a_in1', 'c_inUS', 'a_rep'}:
+    modes.append('2d')
+  for arrays in modes:
     batches = []
     for bt in h['stream']:
       a = [r['a'] for r in bt]
       b = [r['b'] for r in bt]
       c = ['US' if v == 1 else 'UK' for v in a]
+      if arrays == '2d':
+        batches.append({'a': np.array(a), 'b': np.array([[v, v + 100] for v in b]), 'c': np.array(c)})
+        continue
       batches.append({'a': np.array(a), 'b': np.array(b), 'c': np.array(c)} if arrays else {'a': a, 'b': b, 'c': c})
     ctx = dict(kind='slicing', history=dict(stream=h['stream'], slicers=sorted(h['slicers']), agg2=h['agg2'], dis1=h['dis1']), arrays=arrays)
-    cfg = f"slicers={sorted(h['slicers'])} agg2={h['agg2']} dis1={h['dis1']} batches={[[(r['a'], r['b']) for r in bt] for bt in h['stream']]} {'numpy' if arrays else 'lists'}"
+    cfg = f"slicers={sorted(h['slicers'])} agg2={h['agg2']} dis1={h['dis1']} batches={[[(r['a'], r['b']) for r in bt] for bt in h['stream']]} {'numpy-2d-column' if arrays == '2d' else 'numpy' if arrays else 'lists'}"
     kinds = '+'.join(sorted(h['slicers'])) or 'none'
     try:
       p, names = build(h, arrays)
@@ -121,6 +128,9 @@ def replay(chk, h):
     for e in h['expected']:
       nm = () if not e['slicer'] else names[e['slicer']]
       want[(e['out'], tuple(nm), tuple(e['value']))] = [tuple(r) for r in e['rows']]
+    if arrays == '2d':
+      # a row (b,) is (b, b + 100); a replaced row (0,) is (0, 0)   (b is never 0 in Slicing.tla)
+      want = {k: [((r[0], r[0] + 100) if r[0] else (0, 0)) for r in v] for k, v in want.items()}
     if not h['stream']:
       # an empty stream has no aggregate result at all
       if got and any(v for v in got.values()):
